@@ -640,6 +640,7 @@ impl OrdSpecImpl for Version { open spec fn obeys_cmp_spec() -> bool { true } op
     g.emit('m_vspec', P('vgrammar_spec.rs'))
     g.emit('m_vtwins', K.grammar_twins())
     g.emit('m_vtwins', K.PARSE_SPEC)
+    g.emit('m_vtwins', K.PARSE_POST)
 
     def u_extras_type():
         sl = item(LIB, r'^enum Extras \{', 'enum Extras')
@@ -730,6 +731,96 @@ impl OrdSpecImpl for Version { open spec fn obeys_cmp_spec() -> bool { true } op
     g.emit('m_vprops', P('vprops.rs'))
     g.emit('m_vprops', P('vcomplete.rs'))
     g.emit('m_vprops', P('vsound.rs'))
+
+
+    # ---------------------------------------------------------------- Display under contract (m_fmt): the printed text of Identifier,
+    # VersionDiff and Version.  R9 (trait method lifted to an inherent fn), R10' (every `write!(f, "p0{}p1..", a, ..)` with plain `{}`
+    # placeholders becomes verif_writeN(f, "p0", a, "p1", ..) -- A16), R17 (`for (i, x) in e.iter().enumerate()` -> a counter next to
+    # `for x in e.iter()`: std's Enumerate is outside Verus).
+    g.emit('m_fmt', P('fmt_spec.rs'))
+
+    def write_calls(t):
+        """R10': -> (text, number of rewritten invocations) ; raises AnchorLost on a format string it cannot split"""
+        n = 0
+        pos = 0
+        while True:
+            i = t.find('write!(', pos)
+            if i < 0:
+                break
+            depth = 0
+            j = i + len('write!')
+            while j < len(t):
+                if t[j] == '(':
+                    depth += 1
+                elif t[j] == ')':
+                    depth -= 1
+                    if depth == 0:
+                        break
+                elif t[j] == '"':
+                    j += 1
+                    while t[j] != '"':
+                        if t[j] == '\\':
+                            j += 1
+                        j += 1
+                j += 1
+            inner = t[i + len('write!('):j]
+            m = re.match(r'\s*(\w+)\s*,\s*"((?:[^"\\]|\\.)*)"\s*((?:,\s*[^,]+)*),?\s*$', inner, re.S)
+            if not m:
+                raise AnchorLost('a write! invocation that is not `write!(f, "literal", args..)`: %s' % inner[:60])
+            fvar, lit, rest = m.group(1), m.group(2), m.group(3)
+            args = [a.strip() for a in rest.split(',') if a.strip()]
+            pieces = lit.split('{}')
+            if '{' in ''.join(pieces) or '}' in ''.join(pieces) or len(pieces) != len(args) + 1 or len(args) > 3:
+                raise AnchorLost('a write! format string with something other than plain `{}` placeholders: "%s"' % lit)
+            parts = ['"%s"' % pieces[0]]
+            for a, p in zip(args, pieces[1:]):
+                parts += [a, '"%s"' % p]
+            rep = 'verif_write%d(%s, %s)' % (len(args), fvar, ', '.join(parts))
+            t = t[:i] + rep + t[j + 1:]
+            pos = i + len(rep)
+            n += 1
+        return t, n
+
+    def r17(t):
+        pat = re.compile(r'for \((\w+), (\w+)\) in (self\.\w+)\.iter\(\)\.enumerate\(\) \{')
+        k = [0]
+        def f(m):
+            k[0] += 1
+            return 'let mut verif_i%d: usize = 0;\n        for %s in verif_it%d: %s.iter() {\n            let %s = verif_i%d;' % (k[0], m.group(2), k[0], m.group(3), m.group(1), k[0])
+        return pat.sub(f, t), k[0]
+
+    def display_unit(ty, src, contract, hints=None, loops=None):
+        def u():
+            sl = fn_in_impl(src, r'^impl fmt::Display for %s \{' % ty, 'fmt', '%s::fmt (Display)' % ty)
+            t, n = write_calls(sl.text)
+            sl.rewrites += ['R9 trait method body lifted to inherent fn display_fmt', "R10' %d write!(..) invocations -> verif_writeN (A16)" % n]
+            t = t.replace('fmt::', 'std::fmt::').replace('fn fmt(', 'fn display_fmt(')
+            if loops:
+                t, nl = r17(t)
+                if nl != len(loops):
+                    raise AnchorLost('%s::fmt: %d `for (i, x) in self.<field>.iter().enumerate()` loops expected' % (ty, len(loops)))
+                if re.search(r'\bcontinue\b', t):
+                    raise AnchorLost('%s::fmt: `continue` inside an enumerate loop (R17 would skip the counter)' % ty)
+                sl.rewrites.append('R17 %d enumerate loops -> counter + for over iter()' % nl)
+                # invariants and the counter increment at the end of each loop body
+                for idx, inv in enumerate(loops, 1):
+                    head = 'for %s in verif_it%d: ' % ('%s', idx)
+                    mm = re.search(r'for (\w+) in verif_it%d: (self\.\w+)\.iter\(\) \{' % idx, t)
+                    ob = mm.end() - 1
+                    e = match_brace(t, ob)
+                    body_end = e - 1
+                    t = t[:body_end] + '    verif_i%d = verif_i%d + 1;\n        ' % (idx, idx) + t[body_end:]
+                    t = t[:ob] + '\n            invariant ' + inv.replace('$IT', 'verif_it%d' % idx).replace('$I', 'verif_i%d' % idx) + '\n        ' + t[ob:]
+            sl.text = t
+            kw = dict(ret='r', contract=contract)
+            if hints:
+                kw['entry'] = hints
+            g.emit('m_fmt', 'impl %s {\n' % ty + g.inj(sl, '%s::display_fmt' % ty, 'm_fmt', kw, make_pub=True) + '\n}')
+        g.unit('%s::display_fmt' % ty, u)
+    display_unit('Identifier', LIB, K.DISPLAY_CONTRACT, hints=K.IDENT_FMT_HINT)
+    display_unit('VersionDiff', LIB, K.DISPLAY_CONTRACT, hints=K.DIFF_HINT)
+    display_unit('Version', LIB, K.DISPLAY_CONTRACT, hints=K.VERSION_FMT_HINT, loops=K.VERSION_FMT_LOOPS)
+    g.emit('m_c12', P('c12_props.rs'))
 
     g.shape = source_shape(g, LIB, RNG)
 
